@@ -306,7 +306,15 @@ type Entry struct {
 	Total  float64 // comparable sites
 	P      float64 // observed proportion of differing sites, under the model's counting rule (NaN without a comparable site)
 	MinArg float64 // smallest logarithm/power argument (+Inf if the model has none)
+	// RelExtra widens the relative tolerance of this entry: the argument x itself carries a rounding error
+	// of a few 1e-14 (weighted sums in another order), which -ln x turns into a relative error of about
+	// 1e-14/x and x^(-1/alpha) into 1e-14/(alpha x): negligible for typical pairs, up to 4e-8/alpha at
+	// the limit x = 1e-6 below which a pair is not judged at all
+	RelExtra float64
 }
+
+// ArgRounding is the assumed absolute rounding error of a logarithm/power argument
+const ArgRounding = 4e-14
 
 // Estimate evaluates the model on the counts of one pair
 func Estimate(opt Options, c Counts, pi [4]float64) Entry {
@@ -412,6 +420,10 @@ func Estimate(opt Options, c Counts, pi [4]float64) Entry {
 				v = 0 // rounding of a value that is mathematically >= 0
 			}
 			e.Kind, e.Value = Defined, v
+			e.RelExtra = ArgRounding / e.MinArg
+			if g && al < 1 {
+				e.RelExtra /= al
+			}
 		}
 	}
 	return e
@@ -424,6 +436,7 @@ type Ref struct {
 	// Max is the largest Defined value among the computed pairs (0 if none); MaxHuge also includes the
 	// Huge values
 	Max, MaxHuge float64
+	MaxExtra     float64 // RelExtra of the entry that is the maximum
 	// NIll, NHuge, NUndefined, NDefined among the computed pairs
 	NIll, NHuge, NUndefined, NDefined int
 	Pi                                [4]float64
@@ -468,7 +481,7 @@ func Reference(rows []string, opt Options, rd Reading) *Ref {
 				case Defined:
 					r.NDefined++
 					if e.Value > r.Max {
-						r.Max = e.Value
+						r.Max, r.MaxExtra = e.Value, e.RelExtra
 					}
 				case Huge:
 					r.NHuge++
